@@ -110,6 +110,47 @@ theorem wfFrom_of_gRun {g g' : Ghost} {p : List Instr} (h : gRun g p = some g') 
     | none => rw [hg] at h; cases h
     | some g1 => rw [hg] at h; exact ih h
 
+/-- once a handle is gone (and handles are never reused) no later instruction of a program that
+keeps the discipline mentions it -/
+theorem no_mention_once_dropped {g : Ghost} (ok : GhostOk g) {h : Nat} (hlt : h < g.nh) (hnl : h ∉ g.live) :
+    ∀ (p : List Instr), wfFrom g p = true → ∀ i ∈ p, h ∉ i.handles := by
+  intro p
+  induction p generalizing g with
+  | nil => intro _ i hi; cases hi
+  | cons j rest ih =>
+    intro hw i hi
+    obtain ⟨g', hg, hw'⟩ := wfFrom_cons hw
+    have hs := gstep_shape hg
+    have ok' := gshape_ok hs ok
+    have step : h ∉ j.handles ∧ h < g'.nh ∧ h ∉ g'.live := by
+      cases hs with
+      | get | alloc =>
+        refine ⟨by simp [Instr.handles], Nat.lt_succ_of_lt hlt, ?_⟩
+        intro hm
+        simp only [List.mem_cons] at hm
+        rcases hm with e | hm
+        · omega
+        · exact hnl hm
+      | write h1 off vals hm ho =>
+        exact ⟨by simp only [Instr.handles, List.mem_singleton]; intro e; exact hnl (e ▸ hm), hlt, hnl⟩
+      | use sl hm ho =>
+        exact ⟨by simp only [Instr.handles, List.mem_singleton]; intro e; exact hnl (e ▸ hm), hlt, hnl⟩
+      | copy d sl hm1 hm2 ho1 ho2 =>
+        refine ⟨?_, hlt, hnl⟩
+        simp only [Instr.handles, List.mem_cons, List.mem_nil_iff, or_false]
+        intro e
+        rcases e with e | e
+        · exact hnl (e ▸ hm2)
+        · exact hnl (e ▸ hm1)
+      | put h1 hm =>
+        exact ⟨by simp only [Instr.handles, List.mem_singleton]; intro e; exact hnl (e ▸ hm), hlt,
+          fun hm' => hnl (List.mem_of_mem_erase hm')⟩
+      | yield => exact ⟨by simp [Instr.handles], hlt, hnl⟩
+    simp only [List.mem_cons] at hi
+    rcases hi with rfl | hi
+    · exact step.1
+    · exact ih ok' step.2.1 step.2.2 hw' i hi
+
 /-! ### the global invariant -/
 
 structure Inv (s : State) : Prop where
